@@ -303,7 +303,16 @@ class Exec:
                 inbox.append(ids[k] == ZI(starts[k]))
         newv = vf(tuple(rel))
         newv = ZR(newv) if base.elem == REAL else Z(newv)
-        st.heap[base.aid] = z3.Lambda(ids, z3.If(z3.And(*inbox), newv, z3.Select(t, *ids)))
+        newt = z3.Lambda(ids, z3.If(z3.And(*inbox), newv, z3.Select(t, *ids)))
+        st.heap[base.aid] = newt
+        ef = getattr(val, 'elem_facts', None)
+        if ef is not None:
+            box = z3.And(*inbox)
+
+            def fact(*idx, newt=newt, ids=ids, box=box, ef=ef):
+                sub = list(zip(ids, [ZI(i) for i in idx]))
+                return f_imp(z3.substitute(box, *sub), ef(z3.Select(newt, *[ZI(i) for i in idx])))
+            st.qfacts.append(QFact(base.rank, fact, 'elementwise range of %'))
 
     def ew(self, st, op, a, b):
         """Elementwise binary op with scalar broadcasting."""
@@ -353,10 +362,10 @@ class Exec:
             return self.ctx.consts[name]
         if name in mod.globals:
             return self.ev(mod.globals[name], State(), Frame(mod, '<module>', None, None))
-        if name in BUILTINS or name in SPEC_BUILTINS:
-            return FunVal('builtin', name)
         if name == 'pi':
             return V.PI
+        if name in BUILTINS or name in SPEC_BUILTINS:
+            return FunVal('builtin', name)
         raise OutOfReach('unknown name %s' % name)
 
     # ------------------------------------------------------------------
@@ -421,11 +430,17 @@ class Exec:
             r, pairs = self.ew(st, lambda x, y: binop(opn, x, y, None), a, b)
             for x, y in pairs:
                 self.safety(st, fr, 'shape_agreement', compare('Eq', x, y), node)
+            if opn == 'Mod' and not self.is_arr(b) and is_reallike(b):
+                # range of the floor-based real modulo (trusted arithmetic fact), attached to the elements
+                r.elem_facts = lambda t, b=b: z3.Implies(ZR(b) > 0, z3.And(t >= 0, t < ZR(b)))
             return r
 
         def ob(kind, cond):
             self.safety(st, fr, kind, cond, node)
-        return binop(opn, a, b, ob)
+        r = binop(opn, a, b, ob)
+        if opn == 'Mod' and is_sym(r) and r.sort() == REAL and not (is_intlike(a) and is_intlike(b)):
+            st.pc.append(z3.Implies(ZR(b) > 0, z3.And(r >= 0, r < ZR(b))))
+        return r
 
     def ev_BoolOp(self, e, st, fr):
         isand = isinstance(e.op, ast.And)
